@@ -117,7 +117,15 @@ def run_qap(k, prog):
     opt = be.options
     obs = []
     prog(k, be)
-    be.prove()                   # runs qapsplit, then the (failing) tools; must not raise
+    reported = None
+    try:
+        be.prove()               # runs qapsplit, then the (failing) tools
+    except ValueError as ex:
+        reported = str(ex)       # "Inconsistent functions": two calls of one function name with different equations
+    if getattr(prog, "expect_inconsistent", False):
+        return [("two calls of the same function name with different equations are reported (or would need distinct files)",
+                 reported is not None and "nconsistent" in reported)]
+    obs.append(("prove() does not raise for a consistent program (%s)" % reported, reported is None))
     for f in (be.qape, be.qapv, be.qapvo):
         f.flush()
     wires = read_wires(opt.get_wire_file(), k.env)
@@ -266,7 +274,27 @@ def p_nested(k, be):
 p_nested.expected_glue = [2, 2, 2]
 
 
-PROGRAMS = dict(main=(p_main, ("x", "y")), call1=(p_call1, ("x",)), call2=(p_call2, ("x", "y")),
+def p_inconsistent(k, be):
+    def mk(c):
+        @be.subqap("scale")
+        def scale(a):
+            return (a * c) * a          # the constant ends up as a coefficient inside the function's equation
+        return scale
+    x = k.S("x")
+    (mk(3)(x) + mk(5)(x)).val()        # same name, same number of equations, different coefficient
+p_inconsistent.expect_inconsistent = True
+
+
+def p_scaled_result(k, be):
+    @be.subqap("tri")
+    def tri(a):
+        return a * a * 3                 # single wire with coefficient 3
+    x = k.S("x")
+    (tri(x * 2) + 1).val()               # argument: single wire with coefficient 2
+p_scaled_result.expected_glue = [2]
+
+
+PROGRAMS = dict(scaled=(p_scaled_result, ("x",)), inconsistent=(p_inconsistent, ("x",)), main=(p_main, ("x", "y")), call1=(p_call1, ("x",)), call2=(p_call2, ("x", "y")),
                 call3_list=(p_call3_list, ("x", "y")), nested=(p_nested, ("x",)))
 
 
